@@ -597,12 +597,47 @@ def _correction_functions(program):
     return out
 
 
+def _check_per_dataset(ctx, ev, call):
+    '''The correction is applied to the p-values of ONE compared dataset at
+    a time: "the number of bins" and the ranks of the definitions are those
+    of one array.  evaluate must hand the correction function an element of
+    `<result>.pvalue` (a list with one array per dataset), not the whole
+    list: pooled, every level is divided by the bins of all the datasets and
+    the Holm ranks run across datasets.'''
+    arg = call.args[0]
+    elem_vars = set()
+    for node in ast.walk(ev.node):
+        if isinstance(node, (ast.comprehension, ast.For)):
+            it = node.iter
+            if isinstance(it, ast.Call) and call_name(it) in (
+                    'enumerate', 'zip', 'iter', 'list', 'tuple'):
+                srcs = it.args
+            else:
+                srcs = [it]
+            if any(isinstance(n, ast.Attribute) and n.attr == 'pvalue'
+                   for src in srcs for n in ast.walk(src)):
+                elem_vars |= {n.id for n in ast.walk(node.target)
+                              if isinstance(n, ast.Name)}
+    whole = any(isinstance(n, ast.Attribute) and n.attr == 'pvalue'
+                for n in ast.walk(arg))
+    per = isinstance(arg, ast.Name) and arg.id in elem_vars
+    ctx.decide('PER-DATASET', ev,
+               f'{ev.cls.name if ev.cls else ""}.evaluate: '
+               f'{txt(call)[:60]}',
+               True if per else False if whole else None,
+               at=ev.where(call),
+               detail='the correction receives the p-values of every '
+                      'dataset pooled in one array' if whole and not per
+               else None)
+
+
 def check_bonferroni(ctx):
     program = ctx.program
     sites = _correction_functions(program)
     ctx.floor('VERD-TABLE', len(sites), 2, 'correction functions called '
               'from evaluate in bonferroni.py')
     for klass, ev, meth, call in sites:
+        _check_per_dataset(ctx, ev, call)
         params = [p for p in meth.params if p != 'self']
         pname, lname = params[0], params[1]
         pder = V.derived_names(meth.node, {pname})
